@@ -26,27 +26,28 @@ type Func struct {
 }
 
 type Prog struct {
-	NImp  int // imported functions env.h0 .. (all of type 0)
-	Funcs []Func
+	NImp    int      // imported functions env.h0 .. (all of type 0)
+	Imports []string // optional "module.name" per import (default env.h<i>): imports from another wasm module
+	Funcs   []Func
 }
 
-func raw(b ...byte) I          { return I{K: "raw", Raw: b} }
-func lget(i int) I             { return I{K: "raw", Raw: c.LocalGet(uint32(i))} }
-func lset(i int) I             { return I{K: "raw", Raw: c.LocalSet(uint32(i))} }
-func ltee(i int) I             { return I{K: "raw", Raw: c.LocalTee(uint32(i))} }
-func konst(v int32) I          { return I{K: "raw", Raw: c.I32Const(v)} }
-func block(b ...I) I           { return I{K: "block", B: b} }
-func loop(b ...I) I            { return I{K: "loop", B: b} }
-func ifThen(t ...I) I          { return I{K: "if", B: t} }
-func ifElse(t []I, e []I) I    { return I{K: "if", B: t, E: e, HasElse: true} }
-func br(l int) I               { return I{K: "br", L: l} }
-func brif(l int) I             { return I{K: "brif", L: l} }
+func raw(b ...byte) I            { return I{K: "raw", Raw: b} }
+func lget(i int) I               { return I{K: "raw", Raw: c.LocalGet(uint32(i))} }
+func lset(i int) I               { return I{K: "raw", Raw: c.LocalSet(uint32(i))} }
+func ltee(i int) I               { return I{K: "raw", Raw: c.LocalTee(uint32(i))} }
+func konst(v int32) I            { return I{K: "raw", Raw: c.I32Const(v)} }
+func block(b ...I) I             { return I{K: "block", B: b} }
+func loop(b ...I) I              { return I{K: "loop", B: b} }
+func ifThen(t ...I) I            { return I{K: "if", B: t} }
+func ifElse(t []I, e []I) I      { return I{K: "if", B: t, E: e, HasElse: true} }
+func br(l int) I                 { return I{K: "br", L: l} }
+func brif(l int) I               { return I{K: "brif", L: l} }
 func brtable(d int, ls ...int) I { return I{K: "brtable", Ls: ls, L: d} }
-func call(f int) I             { return I{K: "call", F: f} }
-func calli() I                 { return I{K: "calli"} }
-func rcall(f int) I            { return I{K: "rcall", F: f} }
-func rcalli() I                { return I{K: "rcalli"} }
-func ret() I                   { return I{K: "ret"} }
+func call(f int) I               { return I{K: "call", F: f} }
+func calli() I                   { return I{K: "calli"} }
+func rcall(f int) I              { return I{K: "rcall", F: f} }
+func rcalli() I                  { return I{K: "rcalli"} }
+func ret() I                     { return I{K: "ret"} }
 
 var (
 	eqz = raw(0x45)
@@ -162,7 +163,13 @@ func (p *Prog) Encode() []byte {
 	m := &c.Mod{}
 	m.Types = [][]byte{c.FT(c.B(c.I32), nil)}
 	for i := 0; i < p.NImp; i++ {
-		m.Imports = append(m.Imports, c.ImportFunc("env", fmt.Sprintf("h%d", i), 0))
+		mod, name := "env", fmt.Sprintf("h%d", i)
+		if i < len(p.Imports) {
+			if k := strings.IndexByte(p.Imports[i], '.'); k > 0 {
+				mod, name = p.Imports[i][:k], p.Imports[i][k+1:]
+			}
+		}
+		m.Imports = append(m.Imports, c.ImportFunc(mod, name, 0))
 	}
 	n := p.NImp + len(p.Funcs)
 	for k, f := range p.Funcs {
